@@ -188,7 +188,9 @@ def run_config(chk, ctx, name):
 
     # ---------------- A2 ----------------
     entries = [inc.path, an["decomposition"].path, an["lifetime"].path, kinc.path]
-    pf.run(chk, F, A, entries, "accounting:" + name, allow_recursion=(), tag=tag, partitions="assoc")
+    sites, an_ia = pf.run(chk, F, A, entries, "accounting:" + name, allow_recursion=(), tag=tag, partitions="assoc")
+    # no silent saturation / truncation / wrap-around below the 64-bit result (shared with C13-S5)
+    c13.lossy_rules(chk, F, an_ia, an, entries, tag)
 
 
 def run(chk, ctx):
